@@ -38,10 +38,13 @@ func BuildSchemaValidationV31(schema *base.Schema, validationString string, fiel
 			}
 		case "gt":
 			if specType == "integer" || specType == "number" {
-				val := swagtool.ParseNumber(ruleValue)
-				schema.ExclusiveMinimum = &base.DynamicValue[bool, float64]{
-					B: *val,
-					N: 1,
+				if val := swagtool.ParseNumber(ruleValue); val != nil {
+					schema.ExclusiveMinimum = &base.DynamicValue[bool, float64]{
+						B: *val,
+						N: 1,
+					}
+				} else {
+					log.Printf("Validation rule '%s' expects a number, got '%s'", ruleName, ruleValue)
 				}
 			} else {
 				log.Printf("Validation rule '%s' is only applicable to numeric fields, got %s", ruleName, specType)
@@ -55,10 +58,13 @@ func BuildSchemaValidationV31(schema *base.Schema, validationString string, fiel
 			}
 		case "lt":
 			if specType == "integer" || specType == "number" {
-				val := swagtool.ParseNumber(ruleValue)
-				schema.ExclusiveMaximum = &base.DynamicValue[bool, float64]{
-					B: *val,
-					N: 1,
+				if val := swagtool.ParseNumber(ruleValue); val != nil {
+					schema.ExclusiveMaximum = &base.DynamicValue[bool, float64]{
+						B: *val,
+						N: 1,
+					}
+				} else {
+					log.Printf("Validation rule '%s' expects a number, got '%s'", ruleName, ruleValue)
 				}
 			} else {
 				log.Printf("Validation rule '%s' is only applicable to numeric fields, got %s", ruleName, specType)
